@@ -65,7 +65,7 @@ class RemoteValueSetpointShift(RemoteValue[float]):
             )
         if self._internal_dpt_class == DPTValue1Count:
             try:
-                converted_value = int(value / self.setpoint_shift_step)
+                converted_value = round(value / self.setpoint_shift_step)
             except (ValueError, OverflowError) as err:  # NaN or infinity
                 raise ConversionError(
                     "Could not convert value to setpoint shift",
